@@ -159,6 +159,24 @@ def Handlers.useIds : Handlers → List Nat
   | .cons h hs => h.useIds ++ hs.useIds
 end
 
+/-- reaching definitions from an arbitrary entry state -/
+def reachingFrom (lib : Bool) (p : Block) (x u : Nat) (entry : List Node) : List Node :=
+  ((flowBlock lib x p entry).uses.filter (·.1 = u)).map (·.2)
+
+/-- The entry state of the function for each scope kind. The CFG semantics is the same for every kind; only what
+is current on entry differs: a local is unbound, a parameter holds its declared literal, a `global` / `nonlocal`
+name holds the binding made outside — and, in the liberal reading, possibly any value the function itself assigns
+to it (the function may have been called before). -/
+def entryOf (lib : Bool) (k : ScopeKind) (p : Block) (x : Nat) : List Node :=
+  match k with
+  | .loc => [none]
+  | .param d0 => [some d0]
+  | .glob d0 => if lib then ownerHolds d0 p x else [some d0]
+  | .nonloc d0 => if lib then ownerHolds d0 p x else [some d0]
+
+def reachingK (lib : Bool) (k : ScopeKind) (p : Block) (x u : Nat) : List Node :=
+  reachingFrom lib p x u (entryOf lib k p x)
+
 /-! ## The fragment covered by the soundness theorem -/
 
 def Block.isNil : Block → Bool
